@@ -73,7 +73,6 @@ func lockRules(c *Ctx, p *Program, label string) {
 	// guarded-by
 	for _, fn := range fns {
 		// constructors: functions that return a freshly allocated value of the guarded type (before publication)
-		isCtor := strings.HasPrefix(fn.Name(), "new") || fn.Name() == "New"
 		seq := map[string]int{}
 		for _, b := range fn.Blocks {
 			for _, in := range b.Instrs {
@@ -91,8 +90,11 @@ func lockRules(c *Ctx, p *Program, label string) {
 				if fa == nil {
 					continue
 				}
-				fname, base, _ := fieldOf(fa)
-				tname := namedTypeName(base.Type())
+				_, base, _ := fieldOf(fa)
+				fname := p.logicalFieldName(fieldVar(fa))
+				tname := p.logicalTypeName(base.Type())
+				// constructor: the object is allocated in this function (not yet published)
+				_, isCtor := base.(*ssa.Alloc)
 				mu, guarded := guardedBy[tname][fname]
 				if !guarded || namedTypePkg(base.Type()) != sp.Pkg.Path() {
 					continue
@@ -148,7 +150,7 @@ func checkC17(c *Ctx) {
 	}
 
 	// ---------------- C17.3
-	inT := p.namedType("drivers/midicatdrv", "in")
+	inT := p.roleT("drivers/midicatdrv.in")
 	if inT == nil {
 		c.Unk("C17.3", "midicatdrv in port", "-", "not found")
 	} else {
@@ -167,7 +169,7 @@ func checkC17(c *Ctx) {
 					if !ok || !isNilConst(st.Val) {
 						continue
 					}
-					if n, _, ok := fieldOf(st.Addr); !ok || n != "listener" {
+					if !p.isRoleField(fieldVar(st.Addr), "drivers/midicatdrv.in", "listener") {
 						continue
 					}
 					held := la.stateAt(fn, st)
@@ -211,7 +213,7 @@ func checkC17(c *Ctx) {
 				if !ok || l.Op != token.MUL {
 					continue
 				}
-				if n, _, ok := fieldOf(l.X); !ok || n != "listener" {
+				if !p.isRoleField(fieldVar(l.X), "drivers/midicatdrv.in", "listener") {
 					continue
 				}
 				nInv++
@@ -256,8 +258,8 @@ func checkC17(c *Ctx) {
 	}
 
 	// ---------------- C17.4 in-memory driver
-	tin := p.namedType("drivers/testdrv", "in")
-	tout := p.namedType("drivers/testdrv", "out")
+	tin := p.roleT("drivers/testdrv.in")
+	tout := p.roleT("drivers/testdrv.out")
 	tdrv := p.namedType("drivers/testdrv", "Driver")
 	if tin == nil || tout == nil || tdrv == nil {
 		c.Unk("C17.4", "testdrv types", "-", "not found")
